@@ -148,7 +148,7 @@ type stepAbort struct{ reason string }
 func newExec(tr *Trace, known map[string]bool) *Exec {
 	e := &Exec{tr: tr, prop: tr.Prop, or: propOracles[tr.Prop], st: newRunStats(), known: known, lim: art.VerifMaxPrefixLen}
 	for _, c := range tr.Trees {
-		ts := &treeState{cfg: c, api: newTree(c.Key, c.Val, c.SpareCodec), m: newModel(c.Key), noID: !valHasID(c.Val)}
+		ts := &treeState{cfg: c, api: newTree(c.Key, c.Val, c.SpareCodec, c.Codec == "own"), m: newModel(c.Key), noID: !valHasID(c.Val)}
 		e.trees = append(e.trees, ts)
 	}
 	return e
